@@ -228,6 +228,30 @@ def replay_relations(ck, chunk):
                                          "gives %r, as one string %r" % (cut, cut, list(yt), list(y))))
                 except Exception as ex:
                     problems.append(("tuple-of-strings-raises:%s" % type(ex).__name__, "the system given as a tuple of strings raised %r" % ex))
+            if len(recs) >= 2 and not grouped and (idx + rot) % 3 == 0:
+                # the documented ways of saying how the solvers are coupled: ONE coupler type for all of them (flat and
+                # nested solver groups), a list of types, and the and_ combinator (independent relations: same fixed point)
+                from mystic.coupler import inner as _inner
+                from mystic.constraints import and_ as _and
+                form = ((idx + rot) // 3) % 4
+                try:
+                    if form == 0:
+                        alt = ms.generate_constraint(solv, ctype=_inner)
+                    elif form == 1:
+                        alt = ms.generate_constraint(solv, ctype=[_inner] * len(solv))
+                    elif form == 2:
+                        lines_ = text.split("\n")
+                        nested = ms.generate_solvers(("\n".join(lines_[:1]), "\n".join(lines_[1:])), variables=sch.variables,
+                                                     nvars=sch.dim, locals=dict(loc))
+                        alt = ms.generate_constraint(nested, ctype=_inner)
+                    else:
+                        alt = ms.generate_constraint(solv, join=_and)
+                    ya = alt(sch.point(x, kind))
+                    if not (len(ya) == len(y) and all(bool(p == q) for p, q in zip(list(ya), list(y)))):
+                        problems.append(("coupling-form-%d-differs" % form, "generate_constraint with %s gives %r, the default gives %r" % (
+                            ["ctype=inner", "ctype=[inner]*n", "ctype=inner on nested solver groups", "join=and_"][form], list(ya), list(y))))
+                except Exception as ex:
+                    problems.append(("coupling-form-%d-raises:%s" % (form, type(ex).__name__), "generate_constraint (form %d) raised %r" % (form, ex)))
             if lost:
                 problems.append(("step-breaks-earlier-line", "applying the solvers one by one: lines %s held and were broken by a later step" % lost))
             if not stepwise_same:
